@@ -6,8 +6,11 @@
 (* for every operand value set of VS.                                       *)
 EXTENDS Prec, Json, IOUtils
 
-CONSTANTS N,        \* maximal length of the operator string
-          MinEmit   \* emit only strings of at least this length
+CONSTANTS N,        \* maximal length of the operator string (Mode "postfix": of the suffix sequence)
+          MinEmit,  \* emit only strings of at least this length
+          Mode,     \* "ops": operator strings; "postfix": prefix x atom x suffixes x context;
+                    \* "block": blocks in expression position
+          Big       \* TRUE: larger menus (thorough tier)
 
 VARIABLE w
 
@@ -17,8 +20,18 @@ VS == << <<2, 3, 5, 7, 11, 13, 17, 19, 23>>,
          <<7, 0 - 2, 3, 0 - 5, 2, 0 - 3, 11, 0 - 13, 19>>,
          <<0 - 5, 0 - 7, 2, 3, 0 - 13, 0 - 2, 5, 11, 0 - 3>> >>
 
-MCInit == w = <<>>
-MCNext == Len(w) < N /\ \E s \in OpSyms : w' = Append(w, s)
+Pres == {<<>>, <<"neg">>, <<"not">>, <<"neg", "neg">>, <<"not", "not">>, <<"neg", "not">>, <<"not", "neg">>}
+PostfixCases ==
+  {[pre |-> p, atom |-> a, post |-> q, ctx |-> c] :
+     p \in Pres, a \in Atoms, q \in UNION {[1..k -> Suffixes] : k \in 0..N},
+     c \in IF Big THEN Contexts ELSE {"none", "sub_r", "mul_r", "and_r"}}
+BlockCases ==
+  {[pos |-> p, kind |-> k, wrap |-> n] : p \in BlockPositions, k \in BlockKinds, n \in IF Big THEN 0..3 ELSE 0..1}
+
+MCInit == CASE Mode = "ops" -> w = <<>>
+            [] Mode = "postfix" -> w \in PostfixCases
+            [] Mode = "block" -> w \in BlockCases
+MCNext == Mode = "ops" /\ Len(w) < N /\ \E s \in OpSyms : w' = Append(w, s)
 MCSpec == MCInit /\ [][MCNext]_w
 
 Out(x) ==
@@ -35,6 +48,10 @@ Out(x) ==
 (* the operand value sets are printed once (with the empty string) *)
 ValueSets == [vs |-> [s \in 1..Len(VS) |-> [j \in 1..9 |-> [neg |-> VS[s][j] < 0, abs |-> Abs(VS[s][j])]]]]
 
-Emit == IF w = <<>> THEN PrintT(<<"REPLAY", ToJson(ValueSets)>>)
-        ELSE Len(w) >= MinEmit => PrintT(<<"REPLAY", ToJson(Out(w))>>)
+Emit ==
+  CASE Mode = "ops" -> IF w = <<>> THEN PrintT(<<"REPLAY", ToJson(ValueSets)>>)
+                       ELSE Len(w) >= MinEmit => PrintT(<<"REPLAY", ToJson(Out(w))>>)
+    [] Mode = "postfix" -> PrintT(<<"REPLAY", ToJson([px |-> w, exp |-> PxExpected(w), alt |-> TVResult(PxAlt(w)),
+                                                           oty |-> PxCore(w).ty, aoty |-> PxAltCore(w).ty])>>)
+    [] Mode = "block" -> PrintT(<<"REPLAY", ToJson([bx |-> w, exp |-> BlockExpected(w)])>>)
 =============================================================================
